@@ -1,6 +1,7 @@
 ---------------------------- MODULE Trace_RpcConv ----------------------------
 (* Validation of RPC conversions executed on the real code: one line per       *)
-(* message {"k":kind,"f":[features extracted by the harness],"got":"ok|err|panic","rt":..}. *)
+(* message {"k":kind,"f":[features extracted by the harness],"got":"ok|err|panic","rt":..}; *)
+(* k = "Bytes" for byte-level damaged encodings that prost still decodes.                 *)
 (* P-layer (raises violations): never a panic; a value obtained from a message  *)
 (* converts to RPC and back to the same value.  I-layer: got = Conv(cell).      *)
 EXTENDS RpcConv, Json, IOUtils
@@ -15,9 +16,11 @@ None == [k |-> "none", f |-> <<>>, got |-> "none", rt |-> "na"]
 TInit == l = 1 /\ cur = None
 
 \* I-layer conformance is the enabling condition: a line whose outcome differs from the table stops the trace
+\* kind "Bytes": a damaged encoding that still decodes; the table makes no prediction for it
 TLine == /\ l <= Len(Rec)
-         /\ Rec[l].k \in Kinds
+         /\ Rec[l].k \in Kinds \cup {"Bytes"}
          /\ \/ Rec[l].got = "panic"
+            \/ Rec[l].k = "Bytes"
             \/ Rec[l].got = Conv([k |-> Rec[l].k, f |-> Rec[l].f])
          /\ cur' = Rec[l] /\ l' = l + 1
 
